@@ -69,6 +69,7 @@ fn main() {
                 "exec-clifprobe" => exec::gen_clifprobe(&mut w, thorough, seed),
                 "xadd" => xadd::gen(&mut w, thorough, seed),
                 "exec-anyprog-engines" => exec::gen_anyprog_engines(&mut w, thorough, seed),
+                "exec-pageboundary" => exec::gen_pageboundary(&mut w, thorough, seed),
                 "exec-long" => exec::gen_long(&mut w, thorough, seed),
                 _ => { eprintln!("unknown suite {suite}"); std::process::exit(2); }
             }
